@@ -205,6 +205,14 @@ class StdCtx(Ctx):
             c, ct = self.tx(e[2][2][2], env1); v, vt = self.tx(e[2][3][2], env1)
             return f'List.foldl (fun {pa} {px} => if {c} then {pa} ++ [{v}] else {pa}) {self.paren(a)} {self.paren(xs)}', 'values'
         if k == 'macro' and e[1] == 'vec' and not e[2]: return '[]', 'values'
+        # `format!("{:X}", n)` with n: i64 — upper-case hexadecimal of the two's complement bit pattern (core::fmt::UpperHex for i64)
+        if k == 'macro' and e[1] == 'format' and len(e[2]) > 2 and e[2][0] == ('str', '"{:X}"') and e[2][1][1] == ',':
+            from rsparse import P
+            p = P(list(e[2][2:]) + [('eof', '')]); arg = p.expr()
+            if p.peek()[0] != 'eof': raise Unrecognised('format! with more than one argument')
+            s, t = self.tx(arg, env)
+            if t == 'i64': return f'Stdlib.hexUpperI64 {self.paren(s)}', 'str'
+            raise Unrecognised(f'format!("{{:X}}") of {t}')
         if k == 'binop' and e[1] == '>':
             l, lt = self.tx(e[2], env); r, rt = self.tx(e[3], env)
             if lt == 'usize' and rt == 'usize': return f'decide ({l} > {r})', 'bool'
@@ -538,7 +546,7 @@ def strip_macros(text):
     return text
 
 STRING = [('chr', 'chr'), ('ord', 'ord'), ('split', 'split'), ('lowercase', 'lowercase'), ('uppercase', 'uppercase'), ('same_text', 'same_text'), ('trim', 'trim'), ('trim_left', 'trim_left'), ('trim_right', 'trim_right')]
-MATH = [('even', 'even', False), ('odd', 'odd', False), ('pow', 'pow', False)]
+MATH = [('even', 'even', False), ('odd', 'odd', False), ('pow', 'pow', False), ('int_to_hex', 'int_to_hex', False)]
 
 def gen_stdlib(srcdir):
     mod = strip_tests(open(os.path.join(srcdir, 'stdlib', 'mod.rs')).read()); com = strip_tests(open(os.path.join(srcdir, 'stdlib', 'common.rs')).read())
